@@ -87,8 +87,8 @@ class LawfulFloatOps (F : Type) [FloatOps F] : Prop where
   neg_maxFinite_notNaN : isNaN (neg (maxFinite : F)) = false
   neg_max_le_max : le (neg (maxFinite : F)) maxFinite = true
   /-- small integers convert (`True + 0.0`) -/
-  ofInt_small : ∀ i : Int, -1 ≤ i → i ≤ 1 → ∃ y : F, ofInt i = some y ∧ isNaN y = false
-  ofInt_notNaN : ∀ (i : Int) (y : F), ofInt i = some y → isNaN y = false
+  ofInt_small : ∀ i : Int, -1 ≤ i → i ≤ 1 → ∃ y : F, ofInt i = some y
+  ofInt_finite : ∀ (i : Int) (y : F), ofInt i = some y → isFinite y = true
   ofInt_mono : ∀ (i j : Int) (x y : F), i ≤ j → ofInt i = some x → ofInt j = some y → le x y = true
   /-- `round` of a float is an integer that converts back (`intval * self.scale` cannot overflow in the conversion) -/
   round_ofInt : ∀ (x : F) (k : Int), round x = some k → ∃ y : F, ofInt k = some y
